@@ -25,8 +25,6 @@ contract(M + 'match_scope', params=dict(self=CSSMATCH, el=NODE), returns=BOOL, e
 # sub-matchers not (yet) verified against a defined spec: their contracts are modular placeholders whose meaning is
 # an abstract spec function; the evidence lists them as "proved modulo" edges
 for fn, params, spec in [
-    ('match_defined', dict(self=CSSMATCH, el=NODE), 'sem_defined(self, el)'),
-    ('match_placeholder_shown', dict(self=CSSMATCH, el=NODE), 'sem_placeholder(self, el)'),
     ('match_default', dict(self=CSSMATCH, el=NODE), 'sem_default(self, el)'),
     ('match_indeterminate', dict(self=CSSMATCH, el=NODE), 'sem_indeterminate(self, el)'),
     ('match_dir', dict(self=CSSMATCH, el=NODE, directionality=FLAGS), 'sem_dir(self, el, directionality)'),
@@ -144,9 +142,6 @@ contract(M + '__init__', params=dict(self=CSSMATCH, selectors=SELLIST, scope=NOD
 
 contract('soupsieve.css_match._DocumentNav.create_fake_parent', params=dict(el=NODE), returns=NODE,
          ensures=['result is not None', 'result == fake_parent(el)'], opaque=True, properties=['C02'])
-contract('soupsieve.css_match._DocumentNav.get_children', params=dict(self=CSSMATCH, el=NODE, start=TOpt(INT), reverse=BOOL, tags=BOOL, no_iframe=BOOL),
-         returns=SEQ_NODE, kind='generator', ensures=['result == kids_spec(self, el, start, reverse, tags, no_iframe)'], opaque=True,
-         properties=['C02', 'C01'])
 contract(M + 'match_nth_tag_type', params=dict(self=CSSMATCH, el=NODE, child=NODE), returns=BOOL, requires=['el is not None', 'child is not None'],
          ensures=['result == same_type(self, el, child)'], properties=['C02'])
 contract(M + 'match_nth', params=dict(self=CSSMATCH, el=NODE, nth=TSeq(SELNTH)), returns=BOOL,
@@ -220,10 +215,6 @@ contract(M + 'extended_language_filter', params=dict(self=CSSMATCH, lang_range=S
                         decreases='(2 * (length - rindex) + (slength - sindex if sindex < slength else 0) + 1) if match else 0')},
          properties=['C13'])
 
-contract('soupsieve.css_match._DocumentNav.get_text', params=dict(self=CSSMATCH, el=NODE, no_iframe=BOOL), returns=STR,
-         ensures=['result == text_of(self, el, no_iframe)'], opaque=True, properties=['C19'])
-contract('soupsieve.css_match._DocumentNav.get_own_text', params=dict(self=CSSMATCH, el=NODE, no_iframe=BOOL), returns=TSeq(STR),
-         ensures=['result == own_texts(self, el, no_iframe)'], opaque=True, properties=['C19'])
 contract(M + 'match_contains', params=dict(self=CSSMATCH, el=NODE, contains=TSeq(SELCONTAINS)), returns=BOOL, requires=['el is not None'],
          ensures=['result == sem_contains(self, el, contains)'],
          locals=dict(content=TOpt(STR), own_content=TOpt(TSeq(STR))),
@@ -238,3 +229,26 @@ contract(M + 'match_contains', params=dict(self=CSSMATCH, el=NODE, contains=TSeq
                                    '_seq2 == contain_list.text']),
                 3: dict(var='c', invariant=['not found', 'any_hay(text, _seq3, _i3) == any_hay(text, _seq3, 0)', '_seq3 == val(own_content)'])},
          properties=['C19'])
+
+NAVQ = 'soupsieve.css_match._DocumentNav.'
+contract(NAVQ + 'get_children', params=dict(self=CSSMATCH, el=NODE, start=TOpt(INT), reverse=BOOL, tags=BOOL, no_iframe=BOOL),
+         returns=SEQ_NODE, kind='generator', ensures=['result == kids_spec(self, el, start, reverse, tags, no_iframe)'],
+         locals=dict(index=INT, node=NODE),
+         loops={1: dict(invariant=['last == len(contents(el)) - 1', 'end == (-1 if reverse else last + 1)', 'incr == (-1 if reverse else 1)',
+                                   'implies(reverse, -1 <= index and index <= last)', 'implies(not reverse, 0 <= index and index <= last + 1)',
+                                   'yields + (kids_down(contents(el), index, tags) if reverse else kids_up(contents(el), index, tags)) == '
+                                   'kids_spec(self, el, start, reverse, tags, no_iframe)'],
+                        decreases='index + 1 if reverse else last + 1 - index')},
+         properties=['C02', 'C01', 'C19'])
+contract(NAVQ + 'get_text', params=dict(self=CSSMATCH, el=NODE, no_iframe=BOOL), returns=STR, requires=['el is not None'],
+         ensures=['result == text_of(self, el, no_iframe)'],
+         comps={1: dict(var='node', fold='texts_from', args='', assume_elem=['node is not None'])}, properties=['C19'])
+contract(NAVQ + 'get_own_text', params=dict(self=CSSMATCH, el=NODE, no_iframe=BOOL), returns=TSeq(STR), requires=['el is not None'],
+         ensures=['result == own_texts(self, el, no_iframe)'],
+         comps={1: dict(var='node', fold='texts_from', args='', assume_elem=['node is not None'])}, properties=['C19'])
+contract(NAVQ + 'get_descendants', params=dict(self=CSSMATCH, el=NODE, tags=BOOL, no_iframe=BOOL), returns=SEQ_NODE, kind='generator',
+         ensures=['result == desc_spec(self, el, tags, no_iframe)'], opaque=True, properties=['C19'])
+contract(M + 'match_defined', params=dict(self=CSSMATCH, el=NODE), returns=BOOL, requires=['el is not None'],
+         ensures=['result == sem_defined(self, el)'], properties=['C01'])
+contract(M + 'match_placeholder_shown', params=dict(self=CSSMATCH, el=NODE), returns=BOOL, requires=['el is not None'],
+         ensures=['result == sem_placeholder(self, el)'], properties=['C17'])
